@@ -31,5 +31,21 @@ Record TInv (o : Z) (P : Z -> Prop) (off : Z) (ws : list Z) : Prop := mkTInv {
   ti_end : forall j, P j -> j < tb_end off ws
 }.
 
+(** the same without the head clause: what holds along a history that starts from an arbitrary
+    well-formed struct literal [TailBitmap{Offset: o, Words: ws0}] (its first word may be all-ones
+    until the first word is touched or Compact runs) *)
+Record TInvW (o : Z) (P : Z -> Prop) (off : Z) (ws : list Z) : Prop := mkTInvW {
+  tw_align : off mod 64 = 0;
+  tw_ge : o <= off;
+  tw_words : words_ok ws;
+  tw_below : forall j, j < off -> j < o \/ P j;
+  tw_bits : forall j, off <= j < tb_end off ws -> (bitz (flat ws) (j - off) = true <-> P j);
+  tw_end : forall j, P j -> j < tb_end off ws
+}.
+
+(** the bits stored in a literal *)
+Definition lit_set (off : Z) (ws : list Z) (j : Z) : Prop :=
+  off <= j < tb_end off ws /\ bitz (flat ws) (j - off) = true.
+
 (** "bit j is 1": below the initial offset, or set at some time *)
 Definition is_member (o : Z) (P : Z -> Prop) (j : Z) : Prop := j < o \/ P j.
